@@ -30,6 +30,7 @@ import (
 	goparser "go/parser"
 	"go/printer"
 	"go/token"
+	"hash/fnv"
 	"math"
 	"os"
 	"path/filepath"
@@ -41,6 +42,7 @@ import (
 	"sync/atomic"
 	"time"
 
+	"github.com/krotik/ecal/cli/tool"
 	"github.com/krotik/ecal/interpreter"
 	"github.com/krotik/ecal/parser"
 	"github.com/krotik/ecal/scope"
@@ -125,13 +127,17 @@ type c16Case struct {
 	thrPan  atomic.Value
 	ready   bool
 	stuck   bool // Status does not answer any more
+	hung    bool // a command did not return
 	pending chan string // an inject that has not returned (yet)
 	sharedErp *interpreter.ECALRuntimeProvider
+	viaCLI  bool // commands go through CLIDebugInterpreter.Handle
+	cli     *tool.CLIDebugInterpreter
 	mu      sync.Mutex
 }
 
 var c16Cur atomic.Value // *c16Case
 var c16Cases sync.Map    // global scope -> *c16Case, while the case is running
+var c16Recorded sync.Map // payload -> result of the recording run (see emit)
 
 type c16Gate struct{}
 
@@ -374,6 +380,9 @@ func (c *c16Case) observe() string {
 
 func c16NewCase(scn string, gsGiven bool) *c16Case {
 	c := &c16Case{gate: make(chan struct{}), done: map[uint64]chan struct{}{}, gsGiven: gsGiven}
+	if strings.HasPrefix(scn, "cli:") {
+		scn, c.viaCLI = scn[4:], true
+	}
 	c.gs = scope.NewScope(scope.GlobalScope)
 	if gsGiven {
 		c.dbg = interpreter.NewECALDebugger(c.gs)
@@ -455,7 +464,24 @@ func (c *c16Case) end() {
 	c.mu.Lock()
 	close(c.gate)
 	c.mu.Unlock()
-	c.dbg.StopThreads(0)
+	// StopThreads takes the debugger's lock: with a lock left behind by a command (or kept by a
+	// waiting thread) it would never return — bounded, the goroutines of such a case are abandoned
+	stopped := make(chan struct{})
+	go func() {
+		defer func() { recover() }()
+		c.dbg.StopThreads(0)
+		close(stopped)
+	}()
+	bound := c16CmdTimeout()
+	if c.stuck || c.hung {
+		bound = 200 * time.Millisecond
+	}
+	select {
+	case <-stopped:
+	case <-time.After(bound):
+		CountRun("case-abandoned-with-lock-held")
+		return
+	}
 	c.mu.Lock()
 	ds := make([]chan struct{}, 0)
 	for _, d := range c.done {
@@ -597,6 +623,10 @@ func (c *c16Case) command(line string) string {
 				ch <- "PANIC"
 			}
 		}()
+		if c.viaCLI {
+			ch <- c.commandCLI(line)
+			return
+		}
 		res, err := c.dbg.HandleInput(line)
 		if err != nil {
 			ch <- "error"
@@ -613,6 +643,7 @@ func (c *c16Case) command(line string) string {
 		return r
 	case <-time.After(c16CmdTimeout()):
 		atomic.AddInt32(&c16Hangs, 1)
+		c.hung = true
 		return "HANG"
 	}
 }
@@ -664,6 +695,10 @@ func c16Exec(scn string, gsGiven bool, lines []string, rec []c16Step, obs0 strin
 			case "!start2":
 				if _, ok := c.done[2]; !ok {
 					c.start(2, "prog", c16ProgTop)
+				}
+			case "!dbgtable":
+				if !c.dbgTable() {
+					return o0, out, strings.Join(classes, ",") + " BADTABLE"
 				}
 			case "!release":
 				c.mu.Lock()
@@ -734,9 +769,12 @@ func c16Payload(scn string, gsGiven bool, obs0 string, steps []c16Step) string {
 // C asks for status/describe (read lock). A watchdog bounds the whole exchange: a lock taken
 // twice by one command (a recursive RLock with a writer waiting) or left behind is a HANG.
 func c16Conc() string {
+	// thread 1 is stepped through calls two levels deep: its call stack and the scope snapshots
+	// which `describe 1` hands out (live slices of the debugger) change all the time
 	var sb strings.Builder
+	sb.WriteString("func h(y) {\n    z := y + 1\n    return z\n}\nfunc f(x) {\n    w := h(x)\n    return w\n}\n")
 	for i := 0; i < 400; i++ {
-		sb.WriteString("a := 1\nb := 2\n")
+		sb.WriteString("a := f(1)\nb := 2\n")
 	}
 	c := &c16Case{gate: make(chan struct{}), done: map[uint64]chan struct{}{}, gsGiven: true}
 	c.gs = scope.NewScope(scope.GlobalScope)
@@ -849,6 +887,36 @@ func c16Conc() string {
 		}
 		close(stop)
 		wg.Wait()
+		// threads that start and finish (RecordThreadFinished changes the thread tables) while
+		// StopThreads — what the CLI tool calls on reload — walks them
+		stopS := make(chan struct{})
+		var sw sync.WaitGroup
+		sw.Add(1)
+		go func() {
+			defer sw.Done()
+			for {
+				select {
+				case <-stopS:
+					return
+				default:
+				}
+				c.dbg.StopThreads(0)
+			}
+		}()
+		for t := uint64(100); t < 140; t++ {
+			c.start(t, "short", "q := 1\nr := 2\n")
+		}
+		for t := uint64(100); t < 140; t++ {
+			c.mu.Lock()
+			d := c.done[t]
+			c.mu.Unlock()
+			select {
+			case <-d:
+			case <-time.After(5 * time.Second):
+			}
+		}
+		close(stopS)
+		sw.Wait()
 		close(finished)
 	}()
 	select {
@@ -874,6 +942,12 @@ func c16Run(payload string) string {
 	// (found with the harness's own generous, load-tolerant time bounds), not a stuck harness
 	if f[0] == "conc" {
 		return "R:" + c16Conc()
+	}
+	if f[0] == "telnet" {
+		return "R:" + c16Telnet()
+	}
+	if r, ok := c16Recorded.LoadAndDelete(payload); ok {
+		return "R:" + r.(string)
 	}
 	if f[2] == "?" {
 		return "RECORD-TIMEOUT" // the harness could not record this case (counted; not a statement about the code)
@@ -952,18 +1026,19 @@ func c16Gen(g *Gen) {
 		type recorded struct {
 			o0    string
 			steps []c16Step
+			res   string
 		}
 		ch := make(chan recorded, 1)
 		go func() {
-			o0, steps, _ := c16Exec(scn, gsGiven, lines, nil, "")
-			ch <- recorded{o0, steps}
+			o0, steps, res := c16Exec(scn, gsGiven, lines, nil, "")
+			ch <- recorded{o0, steps, res}
 		}()
-		var o0 string
+		var o0, res string
 		var steps []c16Step
 		select {
 		case r := <-ch:
-			o0, steps = r.o0, r.steps
-		case <-time.After(150 * time.Second):
+			o0, steps, res = r.o0, r.steps, r.res
+		case <-time.After(90 * time.Second):
 			g.Count("record-timeout")
 			o0 = "?"
 		}
@@ -973,7 +1048,20 @@ func c16Gen(g *Gen) {
 				steps = append(steps, c16Step{lines[i], "0", "?"})
 			}
 		}
-		g.Emit(c16Payload(scn, gsGiven, o0, steps))
+		payload := c16Payload(scn, gsGiven, o0, steps)
+		// The recording run IS an execution of the real code on this case. Single-command cases are
+		// executed a second time (checking that the observations repeat) only for a sample of 1 in 8;
+		// for the others the result of the recording run is handed to Run. Cases with a history, and
+		// every replay (-one), are always executed again.
+		if len(lines) == 1 && o0 != "?" && len(steps) == 1 && steps[0].obs != "?" {
+			h := fnv.New32a()
+			h.Write([]byte(payload))
+			if h.Sum32()%8 != 0 {
+				c16Recorded.Store(payload, res)
+				g.Count("result-of-recording-run")
+			}
+		}
+		g.Emit(payload)
 	}
 	cmds := make([]string, 0)
 	for name := range interpreter.DebugCommandsMap {
@@ -1032,6 +1120,36 @@ func c16Gen(g *Gen) {
 	emit("top", true, "inject 1 a for x.spin() { }", "status", "disablebreak prog:3", "extract 1 a dst", "describe 1")
 	emit("nest2", true, "inject 1 p f1(1)", "status", "break prog:1", "describe 999", "cont 999 resume", "status")
 	emit("nest1", true, "breakonstart", "inject 1 p f3(1)", "status", "describe 999", "rmbreak nest", "cont 999 stepover", "status")
+	// the same through the CLI tool's handler (cli/tool/debug.go: Handle, CanHandle, the @dbg table)
+	for _, scn := range []string{"cli:none", "cli:top", "cli:nest2", "cli:errsusp", "cli:errmap", "cli:two", "cli:finished"} {
+		emit(scn, true, "!dbgtable", "status", "lockstate", "describe 1", "break prog:1", "cont 1 stepout", "status")
+		emit(scn, true, "inject 1 nv 1+1", "extract 1 nv dst", "inject 1 a 1 +", "cont 1", "nosuchcmd", "rmbreak", "", "status")
+		for _, cmd := range cmds {
+			emit(scn, true, cmd)
+			for _, a := range c16ArgsSmall {
+				if g.R.Intn(2) == 0 {
+					emit(scn, true, cmd+" "+a)
+				}
+				if g.R.Intn(6) == 0 {
+					emit(scn, true, cmd+" "+a+" "+g.R.Pick(c16ArgsSmall))
+				}
+			}
+		}
+	}
+	// the tool's debug server on a real listener, two clients at once
+	ntel := 1
+	if g.Thorough() {
+		ntel = 4
+	}
+	for i := 0; i < ntel; i++ {
+		g.Count("telnet")
+		k++
+		if k%sn != si || k < start {
+			g.Emit("not-in-this-shard")
+		} else {
+			g.Emit(fmt.Sprintf("telnet 1 %d", i))
+		}
+	}
 	// commands from two goroutines at once
 	amplify := os.Getenv("C16_AMPLIFY") != "" // a fact about the lock discipline is not established
 	nconc := 3
